@@ -28,6 +28,7 @@ func corpusEnums() []*modSpec {
 		mk("enum-no-exported", "package models\n\ntype E int\n\nconst (\n\ta E = iota\n\tb\n)\n\ntype S struct{ V E }\n"),
 		mk("enum-big", "package models\n\ntype E uint64\n\nconst (\n\tA E = 0\n\tB E = 18446744073709551615\n)\n\ntype S struct{ V E }\n"),
 		mk("enum-negative", "package models\n\ntype E int\n\nconst (\n\tA E = -1\n\tB E = 0\n\tC E = 1\n)\n\ntype S struct{ V E }\n"),
+		mk("enum-multi-name-specs-with-comment", "package models\n\ntype Timeout int\n\nconst Short, Long Timeout = 1, 60 // gomacro:no-enum\n\ntype Kind int\n\nconst Alpha, Beta Kind = 0, 1 // shared label\n\ntype Level string\n\nconst (\n\tLow, High Level = \"l\", \"h\" // both\n\tMid Level = \"m\" // middle\n\tA, limit Level = \"a\", \"z\" // gomacro:no-enum\n)\n\ntype S struct {\n\tT Timeout\n\tK Kind\n\tL Level\n}\n"),
 		mk("enum-optout-some", "package models\n\ntype E int\n\nconst (\n\tA E = 0\n\tB E = 1\n\tMax E = 99 // gomacro:no-enum\n)\n\ntype S struct{ V E }\n"),
 		mk("enum-comments-above-constants", "package models\n\ntype State int\n\nconst (\n\t// Pending is the initial state\n\tPending State = iota\n\t// Running is set by the scheduler\n\tRunning\n\tDone // finished\n)\n\ntype Level int\n\nconst (\n\t// internal default, gomacro:no-enum would be read from a trailing comment only\n\tDefaultLevel Level = 3\n)\n\ntype Flag int\n\nconst (\n\t// the comment above mentions nothing special\n\tFlagA Flag = 1 // gomacro:no-enum\n\t// above\n\tFlagB Flag = 2\n)\n\ntype S struct {\n\tSt State\n\tL Level\n\tF Flag\n}\n"),
 		mk("enum-sibling-file", "package models\n\ntype S struct{ V E }\n", modFile{"enums.go", "package models\n\ntype E string\n\nconst (\n\tX E = \"x\" // the x\n\tY E = \"y\"\n)\n"}),
